@@ -318,6 +318,15 @@ fn check_node(n: &Node, pr: &Progs) -> Vec<(String, String, String)> {
             bad.push(("load/ram-image".into(), format!("after load of follow-up #{} the RAM is not the image followed by zeros", qi), format!("LoadFollow{}", qi)));
             continue;
         }
+        // limits as the program states them: explicit values, else 16 / the image size
+        let exp_prog = match q.programsize {
+            Programsize::Auto => Programsize::Size(img.len() as u8),
+            other => other,
+        };
+        if a.programsize() != exp_prog || (q.stacksize != Stacksize::NotSet && a.stacksize() != q.stacksize) {
+            bad.push(("load/limits".into(), format!("after load of follow-up #{}: limits {:?}/{:?}, the program states {:?}/{:?}", qi, a.stacksize(), a.programsize(), q.stacksize, exp_prog), format!("LoadFollow{}", qi)));
+            continue;
+        }
         if a.stacksize() != f.stacksize() || a.programsize() != f.programsize() {
             bad.push(("load/limits".into(), format!("after load of follow-up #{}: limits {:?}/{:?}, a new machine has {:?}/{:?}", qi, a.stacksize(), a.programsize(), f.stacksize(), f.programsize()), format!("LoadFollow{}", qi)));
             continue;
